@@ -161,6 +161,11 @@ class EWMean(Aggregation):
 
     def on_new(self, acc, new):
         result, old_wt, is_first = acc
+        if is_first and not len(result):
+            # nothing has been seen so far (empty first batch): start here
+            if not len(new):
+                return acc, result
+            result = new.iloc[:1]
         for i in range(int(is_first), len(new)):
             old_wt *= self.old_wt_factor
             result = ((old_wt * result) + (self.new_wt * new.iloc[i])) / (old_wt + self.new_wt)
